@@ -26,6 +26,7 @@ Fixpoint vls_ok (e : expr) {struct e} : Prop :=
   | EUn _ v _ => vls_ok v
   | EBin _ l r => vls_ok l /\ vls_ok r
   | EIf t y n => vls_ok t /\ vls_ok y /\ vls_ok n
+  | ESpread v => vls_ok v
   | _ => True
   end.
 
